@@ -1,5 +1,6 @@
 (* C10 - Sibling names stay unique and exact-name lookup agrees with a scan. Property theorems only. *)
-From Coq Require Import List.
+From Coq Require Import List NArith.
+Import ListNotations.
 From SV Require Import Base.Base IR.State IR.NS Proofs.Ident.
 
 (* the legality test applied to EDIF.identifier accepts exactly the legal EDIF identifiers *)
@@ -38,3 +39,60 @@ Theorem C10_conflict_iff : forall t ek e v,
   ns_no_conflict t ek e str_NAME v = false <-> exists x, sassoc v (ns_names t ek) = Some x /\ x <> e.
 Proof. exact no_conflict_iff_name. Qed.
 Print Assumptions C10_conflict_iff.
+
+(* ---- the history invariant: in every state reachable by any sequence of public editing calls,
+   every table of the namespace manager is exactly the names (and, under the EDIF policy, the
+   case-folded identifiers) of the children of its scope ---- *)
+From SV Require Import IR.Ops Proofs.InvW Proofs.Fresh Proofs.NsInv.
+
+Theorem C10_tables_exact : forall ops, NsInv (run ops init).
+Proof. intro ops. apply (reachable_nsinv ops). Qed.
+Print Assumptions C10_tables_exact.
+
+Theorem C10_step : forall s o, Inv s -> InvT s -> Fresh s -> NsInv s -> NsInv (fst (step s o)).
+Proof. exact step_nsinv. Qed.
+Print Assumptions C10_step.
+
+(* names stay unique in every scope that carries a policy, after any history *)
+Theorem C10_names_unique : forall ops p t r c1 c2 v,
+  let s := run ops init in
+  nstab s p = Some t -> ns_rel r = true -> In c1 (kids s r p) -> In c2 (kids s r p) ->
+  get_str s c1 str_NAME = Some v -> get_str s c2 str_NAME = Some v -> c1 = c2.
+Proof. intros ops p t r c1 c2 v s. apply names_unique. apply (reachable_nsinv ops). Qed.
+Print Assumptions C10_names_unique.
+
+(* under the EDIF policy identifiers stay unique up to letter case *)
+Theorem C10_identifiers_unique : forall ops p t r c1 c2 v1 v2,
+  let s := run ops init in
+  nstab s p = Some t -> ns_pol t = PolEdif -> ns_rel r = true -> In c1 (kids s r p) -> In c2 (kids s r p) ->
+  get_str s c1 str_IDENT = Some v1 -> get_str s c2 str_IDENT = Some v2 -> lower v1 = lower v2 -> c1 = c2.
+Proof. intros ops p t r c1 c2 v1 v2 s. apply idents_unique. apply (reachable_nsinv ops). Qed.
+Print Assumptions C10_identifiers_unique.
+
+(* asking a parent for a child by exact name returns precisely what a linear scan finds *)
+Theorem C10_lookup_is_scan : forall ops p t r v,
+  let s := run ops init in
+  nstab s p = Some t -> ns_rel r = true ->
+  fast_lookup s p (rel_child r) str_NAME v = scan_lookup s (kids s r p) str_NAME v.
+Proof. intros ops p t r v s. apply lookup_is_scan_name. apply (reachable_nsinv ops). Qed.
+Print Assumptions C10_lookup_is_scan.
+
+(* a rename is refused for a conflict exactly when another present sibling carries the name -
+   never because of an element that was removed, renamed or un-named earlier *)
+Theorem C10_refused_exactly : forall ops p t r e v,
+  let s := run ops init in
+  nstab s p = Some t -> ns_rel r = true ->
+  (ns_no_conflict t (rel_child r) e str_NAME v = false <->
+   exists x, In x (kids s r p) /\ x <> e /\ get_str s x str_NAME = Some v).
+Proof. intros ops p t r e v s. apply rename_conflict_iff. apply (reachable_nsinv ops). Qed.
+Print Assumptions C10_refused_exactly.
+
+(* non-vacuity: a library with two definitions under the EDIF policy; the table answers *)
+Example C10_sample :
+  let ops := [OSetPolicy PolEdif; ONew KLibrary (Some [76%N]) [];
+              OCreate RDefs 0 (Some [97%N]) [] 0 None; OCreate RDefs 0 (Some [98%N]) [] 0 None;
+              OCreate RDefs 0 (Some [97%N]) [] 0 None] in
+  let s := run ops init in
+  kids s RDefs 0 = [1; 2] /\ fast_lookup s 0 KDefinition str_NAME [98%N] = Some 2 /\
+  scan_lookup s (kids s RDefs 0) str_NAME [98%N] = Some 2.
+Proof. vm_compute. repeat split. Qed.
